@@ -2,6 +2,9 @@
 import logging
 
 
+PARAM_NAMES = ['x_10', 'x_2', 'width', 'angle', 'zeta', 'beta', 'alpha', 'mass', 'k', 'y', 'c', 'x_1', 'b', 'a']
+
+
 def make_problem(dim, bounds=None, costs=None, evaluate=None, constraints=None, cls_name="P"):
     """A real artap Problem with `dim` parameters; evaluate/constraints are harness-supplied callables."""
     from artap.problem import Problem
@@ -11,7 +14,9 @@ def make_problem(dim, bounds=None, costs=None, evaluate=None, constraints=None, 
     class P(Problem):
         def set(self, **kw):
             self.name = cls_name
-            self.parameters = [dict({'name': 'x%d' % i, 'bounds': list(bounds[i])}) for i in range(dim)]
+            # declaration order deliberately differs from the lexicographic order of the names (name-keyed code must not reorder)
+            self.parameters = [dict({'name': PARAM_NAMES[i] if i < len(PARAM_NAMES) else 'q%d' % (99 - i), 'bounds': list(bounds[i])})
+                               for i in range(dim)]
             self.costs = [dict(c) for c in costs]
 
         def evaluate(self, individual):
@@ -106,3 +111,12 @@ def abstract_marker(x):
         return 0
     mag = 1 if abs(x) <= 1.0 else 2
     return mag if x > 0 else -mag
+
+
+def individual_class(rng):
+    """the framework's own design classes: the plain Individual and the algorithm-specific subclasses"""
+    from artap.algorithm_NSGAII import IndividualNSGAII
+    from artap.algorithm_genetic import IndividualEpsMOEA
+    from artap.algorithm_swarm import IndividualSwarm
+    from artap.individual import Individual
+    return rng.choice([Individual, Individual, IndividualNSGAII, IndividualEpsMOEA, IndividualSwarm])
